@@ -247,6 +247,49 @@ class Emitter(object):
         L.append("}")
 
 
+def _emit_eqcopy(self):
+    L = self.lines
+    L.append("static void run_op(const std::string &op, int sidx, const std::vector<long long> &params, "
+             "const std::string &hex, std::istringstream &in) {")
+    L.append("  std::string hexb; in >> hexb;")
+    L.append("  if (op == \"ocopy\") {")
+    L.append("    // overlapping views inside one exact-size allocation: src at [so, so+sl), dst at [dn, dn+dl)")
+    L.append("    size_t so, sl, dn, dl; so = std::stoul(hexb); in >> sl >> dn >> dl;")
+    L.append("    Buf b(unhex(hex));")
+    L.append("    switch (sidx) {")
+    for i, s in enumerate(self.tops()):
+        args = "".join(self.param_cpp(pp, "params[%d]" % j) + ", " for j, pp in enumerate(s.params))
+        L.append("      case %d: { auto src = ::%s::Make%sView(%sb.p + so, sl); auto dst = ::%s::Make%sView(%sb.p + dn, dl);" % (
+            i, self.ns, s.name, args, self.ns, s.name, args))
+        L.append("        putb(\"src_ok\", src.Ok()); putb(\"copied\", dst.TryToCopyFrom(src)); put(\"all\", tohex(b.p, b.n)); break; }")
+    L.append("      default: break;")
+    L.append("    }")
+    L.append("    return;")
+    L.append("  }")
+    L.append("  Buf ba(unhex(hex)); Buf bb(unhex(hexb));")
+    L.append("  switch (sidx) {")
+    for i, s in enumerate(self.tops()):
+        args = "".join(self.param_cpp(pp, "params[%d]" % j) + ", " for j, pp in enumerate(s.params))
+        L.append("    case %d: {" % i)
+        L.append("      auto a = ::%s::Make%sView(%sba.p, ba.n); auto b = ::%s::Make%sView(%sbb.p, bb.n);" % (
+            self.ns, s.name, args, self.ns, s.name, args))
+        L.append("      putb(\"a_ok\", a.Ok()); putb(\"b_ok\", b.Ok());")
+        L.append("      if (op == \"eq\") {")
+        L.append("        if (a.Ok() && b.Ok()) { putb(\"eq_ab\", a.Equals(b)); putb(\"eq_ba\", b.Equals(a)); }")
+        L.append("      } else {")
+        L.append("        // copy a -> b")
+        L.append("        putb(\"copied\", b.TryToCopyFrom(a)); put(\"dst\", tohex(bb.p, bb.n)); put(\"src\", tohex(ba.p, ba.n));")
+        L.append("        putb(\"dst_ok\", b.Ok()); if (a.Ok() && b.Ok()) putb(\"dst_eq_src\", b.Equals(a));")
+        L.append("      }")
+        L.append("      break; }")
+    L.append("    default: break;")
+    L.append("  }")
+    L.append("}")
+
+
+Emitter.emit_eqcopy = _emit_eqcopy
+
+
 def _writable_virtual(s, f):
     """(target field name, a, b) with v = a*target + b (a in +1/-1) when f is
     an alias or add/subtract transform of a writable field of the same
